@@ -1,6 +1,6 @@
 (* C18 - proofs about Ports/PathModel.v *)
 From Coq Require Import List ZArith Bool Arith Lia.
-From RtoscV Require Import Ports.PathModel.
+From RtoscV Require Import Match.PatSpec Match.MatchModel Ports.PathModel.
 Import ListNotations.
 Local Open Scope Z_scope.
 
